@@ -314,7 +314,9 @@ def parsers_keep_every_entry(ctx: Ctx, rid: str = "C14.R7") -> None:
                 ctx.ob(rid, f, f"every decoded {cname} is kept", c, comp is not None and not any(gen.ifs for gen in comp.generators),
                        "unfiltered comprehension" if comp is not None else f"a {cname} built outside any decoding loop", text=f"{cname}@{n_sites}")
                 continue
-            lp = next(n for n in g.nodes if n.kind == "loop" and n.ast is loops[-1])
+            lp = next((n for n in g.nodes if n.kind == "loop" and n.ast is loops[-1]), None)
+            if lp is None:
+                raise AnalysisError("loop node of the de-duplication loop not found in the CFG")
             body = edge_target(g, lp, "true")
             apps = [n for n in g.calls() if isinstance(n.ast, ast.Call) and isinstance(n.ast.func, ast.Attribute) and n.ast.func.attr == "append"
                     and n.ast.args and c.ast in sl.origins(n.ast.args[0], n.id)["calls"]
